@@ -26,6 +26,38 @@ type CatchObs struct {
 	Path   string
 	Caught bool
 	Dst    reflect.Value // the expected destination of the catching node
+	Loc    []string      // how to reach the node's destination from the root: "F:<GoName>", "I:<idx>", "P"
+}
+
+// Locate follows a location from a root destination value; ok=false if a nil
+// pointer or a short slice is in the way.
+func Locate(root reflect.Value, loc []string) (reflect.Value, bool) {
+	v := root
+	for _, step := range loc {
+		switch step[0] {
+		case 'F':
+			v = v.FieldByName(step[2:])
+		case 'I':
+			i, _ := strconv.Atoi(step[2:])
+			if v.Kind() != reflect.Slice || i >= v.Len() {
+				return reflect.Value{}, false
+			}
+			v = v.Index(i)
+		case 'P':
+			if v.Kind() != reflect.Pointer || v.IsNil() {
+				return reflect.Value{}, false
+			}
+			v = v.Elem()
+		}
+	}
+	return v, true
+}
+
+func locAdd(loc []string, step string) []string {
+	out := make([]string, len(loc)+1)
+	copy(out, loc)
+	out[len(loc)] = step
+	return out
 }
 
 type SpecOut struct {
@@ -98,9 +130,9 @@ func Spec(n *Node, cfg SpecCfg, in any, dst reflect.Value) *SpecOut {
 			}
 		}()
 		if cfg.Mode == "parse" {
-			specParse(n, cfg, in, dst, "", out)
+			specParse(n, cfg, in, dst, "", nil, out)
 		} else {
-			specValidate(n, cfg, dst, "", out)
+			specValidate(n, cfg, dst, "", nil, out)
 		}
 	}()
 	if len(out.Issues) > 0 && out.risky {
@@ -221,9 +253,9 @@ func riskyPosts(n *Node, underDataTest bool) bool {
 	return false
 }
 
-func specParse(n *Node, cfg SpecCfg, in any, dst reflect.Value, path string, out *SpecOut) {
+func specParse(n *Node, cfg SpecCfg, in any, dst reflect.Value, path string, loc []string, out *SpecOut) {
 	if n.Catch != nil {
-		out.Catches = append(out.Catches, CatchObs{Node: n.ID, Path: path, Dst: dst})
+		out.Catches = append(out.Catches, CatchObs{Node: n.ID, Path: path, Dst: dst, Loc: loc})
 	}
 	switch {
 	case IsPrimitive(n.Kind):
@@ -299,7 +331,7 @@ func specParse(n *Node, cfg SpecCfg, in any, dst reflect.Value, path string, out
 		}
 		dst.Set(reflect.MakeSlice(dst.Type(), len(elems), len(elems)))
 		for i, e := range elems {
-			specParse(n.Elem, cfg, e, dst.Index(i), fmt.Sprintf("%s[%d]", path, i), out)
+			specParse(n.Elem, cfg, e, dst.Index(i), fmt.Sprintf("%s[%d]", path, i), locAdd(loc, fmt.Sprintf("I:%d", i)), out)
 		}
 		runTests(n, dst, path, out)
 		out.schedulePosts(n, dst, false)
@@ -311,7 +343,7 @@ func specParse(n *Node, cfg SpecCfg, in any, dst reflect.Value, path string, out
 		}
 		for _, f := range n.Fields {
 			key := cfg.KeyOf(f)
-			specParse(f.Node, cfg, get(key), dst.FieldByName(f.GoName()), joinKey(path, key), out)
+			specParse(f.Node, cfg, get(key), dst.FieldByName(f.GoName()), joinKey(path, key), locAdd(loc, "F:"+f.GoName()), out)
 		}
 		runTests(n, dst, path, out)
 		out.schedulePosts(n, dst, false)
@@ -325,7 +357,7 @@ func specParse(n *Node, cfg SpecCfg, in any, dst reflect.Value, path string, out
 		if dst.IsNil() {
 			dst.Set(reflect.New(dst.Type().Elem()))
 		}
-		specParse(n.Elem, cfg, in, dst.Elem(), path, out)
+		specParse(n.Elem, cfg, in, dst.Elem(), path, locAdd(loc, "P"), out)
 	case n.Kind == KCustom:
 		ok := false
 		switch n.CustomT {
@@ -387,9 +419,9 @@ func structGetter(in any) (func(string) any, bool) {
 	return nil, false
 }
 
-func specValidate(n *Node, cfg SpecCfg, dst reflect.Value, path string, out *SpecOut) {
+func specValidate(n *Node, cfg SpecCfg, dst reflect.Value, path string, loc []string, out *SpecOut) {
 	if n.Catch != nil {
-		out.Catches = append(out.Catches, CatchObs{Node: n.ID, Path: path, Dst: dst})
+		out.Catches = append(out.Catches, CatchObs{Node: n.ID, Path: path, Dst: dst, Loc: loc})
 	}
 	switch {
 	case IsPrimitive(n.Kind):
@@ -426,13 +458,13 @@ func specValidate(n *Node, cfg SpecCfg, dst reflect.Value, path string, out *Spe
 			}
 		}
 		for i := 0; i < dst.Len(); i++ {
-			specValidate(n.Elem, cfg, dst.Index(i), fmt.Sprintf("%s[%d]", path, i), out)
+			specValidate(n.Elem, cfg, dst.Index(i), fmt.Sprintf("%s[%d]", path, i), locAdd(loc, fmt.Sprintf("I:%d", i)), out)
 		}
 		runTests(n, dst, path, out)
 		out.schedulePosts(n, dst, false)
 	case n.Kind == KStruct:
 		for _, f := range n.Fields {
-			specValidate(f.Node, cfg, dst.FieldByName(f.GoName()), joinKey(path, cfg.KeyOf(f)), out)
+			specValidate(f.Node, cfg, dst.FieldByName(f.GoName()), joinKey(path, cfg.KeyOf(f)), locAdd(loc, "F:"+f.GoName()), out)
 		}
 		runTests(n, dst, path, out)
 		out.schedulePosts(n, dst, false)
@@ -443,7 +475,7 @@ func specValidate(n *Node, cfg SpecCfg, dst reflect.Value, path string, out *Spe
 			}
 			return
 		}
-		specValidate(n.Elem, cfg, dst.Elem(), path, out)
+		specValidate(n.Elem, cfg, dst.Elem(), path, locAdd(loc, "P"), out)
 	case n.Kind == KCustom:
 		out.ran(n, 999)
 		if !EvalFunc(n.CustomFn, dst) {
